@@ -6,7 +6,7 @@ import RotondaModel.Model.ConnMetrics
            `<c>!u` unparsable frame   `<c>!n` non-fatal read error   `<c>!f` `<c>!e` `<c>!s` `<c>!p` fatal ones
            `L+<slot>.<q|d><a|s>` subscribe (queue/direct, active/suspended)  `Ls<slot>` suspend  `Ln<slot>` unsuspend
            `Lx<slot>` unsubscribe   `Lk<slot>` receiver closed / target dropped
-   snapshot `a<accepted>l<lost>b<bound>c<clients>|g<updates>.<dropped>.<set size>.<updated>|<rid>[r0,…,r6;processed;invalid;ioerrors]/…`
+   snapshot `a<accepted>l<lost>b<bound>c<clients>|g<updates>.<dropped>.<set size>.<updated>|<rid>[r0,…,r6;processed;invalid;ioerrors]/…|s<slots in updates>.<slots in suspended>`
 `p|<call>;<call>…`   `Target` calls; output: hex of the text + what the grammar's parser makes of it
    call `<name>,<help>,<type c|g|h|s|t>,<unit 0-6>,<unit name|->,<rec>/<rec>…`  rec `<suffix|->:<value>:<-|lname=lvalue&…>`
    strings are `x<hex of UTF-8>`
@@ -66,6 +66,9 @@ def parseEv (s : String) : Option CEv :=
 def showRouter (r : Nat) (x : RouterMetrics) : String :=
   s!"{r}[" ++ ",".intercalate (MType.all.map (fun t => toString (x.recv t))) ++ s!";{x.processed};{x.invalid};{x.ioErrors}]"
 
+def showSlots (ls : List Link) : String :=
+  s!"|s{(ls.filter (·.inUpd)).length}.{(ls.filter (·.inSusp)).length}"
+
 def showMx (rids : List Nat) (m : Metrics) : String :=
   let cl := if m.lost > m.accepted then "P" else toString m.clients
   let rs := rids.filterMap (fun r => (m.routers r).map (showRouter r))
@@ -82,7 +85,7 @@ def runWorld (v : Bmp.Variant) (keys : List Nat) (evs : List CEv) : String :=
   let rec go (cw : CWorld) (es : List CEv) (acc : List String) : List String :=
     match es with
     | [] => acc.reverse
-    | e :: rest => let cw' := cw.step v K e; go cw' rest (showMx rids cw'.w.mx :: acc)
+    | e :: rest => let cw' := cw.step v K e; go cw' rest ((showMx rids cw'.w.mx ++ showSlots cw'.w.links) :: acc)
   " ".intercalate (go CWorld.init evs [])
 
 /- ---------- exposition cases ---------- -/
